@@ -211,7 +211,11 @@ func VpC16RoundTrip() {
 			opText += string(a[i])
 		}
 	}
-	conf := "SecRuleEngine On\nSecRule ARGS:k|ARGS:/^r[0-9]$/|!ARGS:r2|&ARGS:none \"@streq " + opText + "\" \"id:7,phase:2,pass,msg:'" + m + "',logdata:'" + m + "',tag:'" + m + "',setvar:'tx.s=" + vpC16NoSpace(m) + "'\"\n"
+	// four regex keys that all select r1 (and r2, excluded below): plain; '|' inside a class; an
+	// escaped slash; an escaped backslash right before the closing slash - the scanner has to
+	// find the end of the pattern, more targets follow
+	rx := []string{"/^r[0-9]$/", "/^r[0-9|]$/", "/^r(\\/|[0-9])$/", "/^r[0-9]$|\\\\/"}[vp.Choice("regexkey", 4)]
+	conf := "SecRuleEngine On\nSecRule ARGS:k|ARGS:" + rx + "|!ARGS:r2|&ARGS:none \"@streq " + opText + "\" \"id:7,phase:2,pass,msg:'" + m + "',logdata:'" + m + "',tag:'" + m + "',setvar:'tx.s=" + vpC16NoSpace(m) + "'\"\n"
 	w, err := vpC16Compile(conf)
 	if err != nil {
 		// text the parser cannot represent must be rejected, which is allowed
